@@ -20,6 +20,10 @@ use falcon::memory::MemoryPermissions as P;
 use std::collections::{BTreeMap, BTreeSet};
 use std::panic::{catch_unwind, AssertUnwindSafe};
 
+// the LINKER part (ElfLinker: DT_NEEDED, symbol table, relocations) lives in its own file, which is also a stand-alone binary
+#[path = "c19_link_witness.rs"]
+mod link;
+
 // ---- fixed file layout (offsets valid for both ELF classes; every gap holds non-zero pattern bytes) ----
 const PH: usize = 0x40;
 const DYN: usize = 0x120;
@@ -422,6 +426,12 @@ fn main() {
             }
         } } } } }
     }
+    // ---- the linker part
+    let mut lc = link::Counts { evals: 0, found: 0, per_op: BTreeMap::new(), links: 0 };
+    link::run(&mut lc);
+    evals += lc.evals;
+    found += lc.found;
+    for (k, v) in lc.per_op { *per_op.entry(k).or_insert(0) += v; }
     let po: Vec<String> = per_op.iter().map(|(k, v)| format!("\"{}\":{}", k, v)).collect();
-    println!("{{\"summary\":true,\"evaluations\":{},\"disagreements\":{},\"per_op\":{{{}}},\"images\":{}}}", evals, found, po.join(","), images);
+    println!("{{\"summary\":true,\"evaluations\":{},\"disagreements\":{},\"per_op\":{{{}}},\"images\":{},\"links\":{}}}", evals, found, po.join(","), images, lc.links);
 }
